@@ -21,7 +21,8 @@ RULE = ("(a) every history up to the depth bound over {to_dict, from_dict (and t
         "(b) every format x every subset of size <= 2 of the six dialect options x values: the format document parsed by the format's "
         "own library equals the basic codec's output under the same dialect, and the decoder dually. Non-trivial: a call with a "
         "dialect, or a transition from a non-initial state.")
-ASSUMPTIONS = ["dialects D1 (date strategy), D2 (omit_none + int strategy), D3 (serialize_by_alias + omit_default) of vmc/family.py",
+ASSUMPTIONS = ["codec part: one Dialect class given to the codecs of two formats (every ordered pair) must behave like a fresh one; class-form strategy for UUID",
+               "dialects D1 (date strategy), D2 (omit_none + int strategy), D3 (serialize_by_alias + omit_default) of vmc/family.py",
                "no_copy_collections is not observable in a format document; only its non-interference is checked there"]
 UNIT_TIMEOUT = 1500
 RECLIMIT = 170
